@@ -276,8 +276,18 @@ func runDB(in *mbt.Input, res *mbt.Result) {
 					stuck(si, "flush did not settle")
 					break
 				}
-				if m := memTables(db); m != 1 {
+				// the goroutine snapshot can be taken before the flush task was scheduled:
+				// the swap itself (sealed memtables dequeued) is what "settled" means
+				m := memTables(db)
+				for dl := time.Now().Add(20 * time.Second); m != 1 && time.Now().Before(dl); m = memTables(db) {
+					time.Sleep(200 * time.Microsecond)
+				}
+				if m != 1 {
 					stuck(si, fmt.Sprintf("%d memtables after the flush settled", m))
+					break
+				}
+				if !settle(20 * time.Second) {
+					stuck(si, "flush did not settle")
 					break
 				}
 				res.Count("db_flushes", 1)
